@@ -72,12 +72,21 @@ def _short(v):
     return str(v)
 
 
-def contract(target, props, cases=None, name=None):
+def thorough():
+    """is the thorough tier running?  (set by the command line before the contracts are imported)"""
+    return os.environ.get("VF_TIER") == "thorough"
+
+
+def contract(target, props, cases=None, name=None, thorough_cases=None):
+    """thorough_cases: further cases (larger structures, more regions, longer histories) run by the thorough tier only"""
     def deco(cls):
         cls.target = target
         cls.props = tuple(props)
         if cases is not None:
             cls.cases = tuple(cases)
+        if thorough_cases and thorough():
+            seen = [repr(c) for c in cls.cases]
+            cls.cases = tuple(cls.cases) + tuple(c for c in thorough_cases if repr(c) not in seen)
         cls.name = name or cls.__name__
         REGISTRY.append(cls)
         return cls
